@@ -302,12 +302,48 @@ def dispatch_shape(ck, P, cfg):
             ck.decide(ok, R, "Crc32Fold::fold@" + cfg, "braid kernel reachable when the probe fails", "Crc32Fold::fold cannot reach the portable kernel", where(f))
 
 
+def crc_start_flow(ck, P, R="FLOW/crc-start"):
+    """crc32(start, buf): the back-ends of Crc32Fold::fold do not agree on where the running value comes from - the
+    PCLMULQDQ accumulator takes it from fold's argument, the portable / ACLE / LoongArch paths continue from the `value`
+    field.  So `start` has to reach both: the fold state is built with new_with_initial(start) and fold is given start."""
+    fn = P.fn(Z + "crc32::crc32")
+    if not ck.anchor("fn crc32::crc32", fn):
+        return
+    ck.use_fn(fn)
+    start = fn.param_index("start") or 1
+    ctor = fn.live_calls(r"crc32::Crc32Fold::new\w*$")
+    folds = fn.live_calls(r"crc32::Crc32Fold::fold$")
+    if not (ck.anchor("Crc32Fold constructor in crc32()", len(ctor) >= 1, where(fn)) and ck.anchor("Crc32Fold::fold in crc32()", len(folds) >= 1, where(fn))):
+        return
+
+    def from_start(e):
+        return any(x == ("p", start) for x in mir.walk(e))
+    okc = all(c.callee.endswith("::new_with_initial") and from_start(fn.call_args(c)[0]) for c in ctor)
+    ck.decide(okc, R, "crc32:state-initial", "Crc32Fold::new_with_initial(start)",
+              "crc32() builds its fold state without the caller's starting value (%s): every back-end that continues from the `value` "
+              "field (portable braid, aarch64 CRC, loongarch) then ignores `start` - the result depends on the selected implementation"
+              % ", ".join(c.callee.split("::")[-1] for c in ctor), where(fn, ctor[0].line))
+    okf = all(len(fn.call_args(c)) >= 3 and from_start(fn.call_args(c)[2]) for c in folds)
+    ck.decide(okf, R, "crc32:fold-arg", "fold(buf, start)", "crc32() does not hand `start` to Crc32Fold::fold (the PCLMULQDQ back-end takes it from there)",
+              where(fn, folds[0].line))
+    br = fn.live_calls(r"crc32::crc32_braid$|braid::crc32_braid$")
+    ck.decide(bool(br) and all(from_start(fn.call_args(c)[0]) for c in br), R, "crc32:short-path", "crc32_braid(start, buf)",
+              "the short-input path of crc32() does not start from `start`", where(fn))
+    fo = P.fn(Z + "crc32::Crc32Fold::fold")
+    if ck.anchor("fn Crc32Fold::fold", fo):
+        ck.use_fn(fo)
+        wr = [rv for bi, fp, root, rv, st in fo.field_writes() if fp[-1:] == ("value",)]
+        ok = bool(wr) and all(mir.mentions_field(e, "value") for e in wr)
+        ck.decide(ok, R, "Crc32Fold::fold:fallback", "value = kernel(value, src)", "a fallback of Crc32Fold::fold does not continue from self.value", where(fo))
+
+
 def run(ck):
     P = prog("K1")
     ck.configs.add("K1")
     n = crc_consts(ck, P, "K1")
     adler_consts(ck, P)
     adler_combine_proof(ck, P)
+    crc_start_flow(ck, P)
     k = adler_kernels(ck, P, "K1")
     ck.floor("ATOM/adler-stride:K1", k, 2)
     dispatch_shape(ck, P, "K1")
